@@ -75,6 +75,11 @@ class ResourceScenario(ScenarioData):
         # This allows multiple tasks to share a slot
         self.slotTaskUsage: dict[int, list[tuple[Any, float]]] = {}
 
+        # Seconds at the END of a slot that belong to backward (ALAP) tasks which finished
+        # inside the slot. Forward tasks fill a slot from its beginning, backward tasks from
+        # its end; the two must not be mixed up when a slot is shared by both kinds.
+        self.slotBackSeconds: dict[int, float] = {}
+
         # Data cache
         self.dCache = DataCache.instance()
 
